@@ -59,7 +59,11 @@ func (e *storeEnv) concDo(r concReq) string {
 		code, body := e.doCtx(ctx, e.rr, "POST", "/relation-tuples/batch/check", b)
 		return fmt.Sprintf("%d %s", code, body)
 	case "rest_expand":
-		q := url.Values{"namespace": {r.q.Namespace}, "object": {r.q.Object}, "relation": {r.q.Relation}, "max-depth": {"4"}}
+		d := "4"
+		if r.depth > 0 {
+			d = fmt.Sprint(r.depth)
+		}
+		q := url.Values{"namespace": {r.q.Namespace}, "object": {r.q.Object}, "relation": {r.q.Relation}, "max-depth": {d}}
 		code, body := e.doCtx(ctx, e.rr, "GET", "/relation-tuples/expand?"+q.Encode(), nil)
 		return fmt.Sprintf("%d %s", code, body)
 	case "rest_list":
@@ -126,7 +130,7 @@ func famConc(t *testing.T) {
 	refs := map[int][]string{}
 	durs := map[int][]time.Duration{}
 	for round := 0; round < in.Rounds; round++ {
-		if round%sn != si || round%3 != 2 {
+		if round%sn != si || round%3 != 2 || in.Only == "expand" {
 			continue
 		}
 		t.Run(fmt.Sprintf("ref%d", round), func(t *testing.T) {
@@ -145,20 +149,45 @@ func famConc(t *testing.T) {
 			continue
 		}
 		S := in.States[round%len(in.States)]
-		if round%3 == 2 {
+		if in.Only == "expand" && round%2 == 0 {
+			continue // only the rounds that hammer one subject set
+		}
+		if round%3 == 2 && in.Only != "expand" {
 			t.Run(fmt.Sprintf("c%d", round), func(t *testing.T) { cancelRound(t, &in, round, S, refs[round], durs[round], out) })
 		}
-		if in.Only == "cancel" {
+		if in.Only == "expand" {
+			// falls through to the read-only round below (odd rounds only), no mixed round
+		} else if in.Only == "cancel" {
 			if round%9 == 2 {
 				t.Run(fmt.Sprintf("b%d", round), func(t *testing.T) { burstRound(t, &in, round, S, out) })
 			}
 			continue
 		}
 		t.Run(fmt.Sprintf("r%d", round), func(t *testing.T) {
-			reg := newRegistry(t, regOpts{opl: in.Def.Cfg.opl(), gdepth: 8})
+			// every fourth round runs with max_read_width 1, so that the engine's truncation path is taken by many requests at once
+			ro := regOpts{opl: in.Def.Cfg.opl(), gdepth: 8}
+			wideRound := round%4 == 1 || round%4 == 2
+			if wideRound {
+				ro.width = 1
+			}
+			reg := newRegistry(t, ro)
 			var stored []*ketoapi.RelationTuple
 			for _, i := range S {
 				stored = append(stored, in.Def.U[i-1].api())
+			}
+			if wideRound {
+				// ... and with nodes that are wider than that: three more subject sets on the relations the queries go through
+				for _, node := range [][2]string{{"D", "d"}, {"G", "g"}, {"G", "h"}} {
+					for _, rel := range []string{"a", "b", "m"} {
+						if (node[0] == "D") != (rel != "m") {
+							continue
+						}
+						for k := 1; k <= 3; k++ {
+							stored = append(stored, &ketoapi.RelationTuple{Namespace: node[0], Object: node[1], Relation: rel,
+								SubjectSet: &ketoapi.SubjectSet{Namespace: "G", Object: fmt.Sprintf("extra%d", k), Relation: "m"}})
+						}
+					}
+				}
 			}
 			// written through the persister directly: the registry's lazy getters stay untouched
 			writeOrderedRaw(t, reg, stored)
@@ -174,6 +203,14 @@ func famConc(t *testing.T) {
 						rq.kind = "rest_check"
 					} else {
 						rq.kind = "grpc_check"
+					}
+					if round%4 == 3 || in.Only == "expand" {
+						// ... and expands of the SAME subject set with different max-depth values
+						rq.kind = "rest_expand"
+						rq.q = &ketoapi.RelationTuple{Namespace: "G", Object: []string{"g", "h"}[i%2], Relation: "m"}
+						if i%5 == 4 {
+							rq.q = &ketoapi.RelationTuple{Namespace: "R", Object: "r", Relation: "v"}
+						}
 					}
 				}
 				reqs = append(reqs, rq)
